@@ -60,3 +60,17 @@ Theorem C19_readonly_open_changes_no_file :
   cro c0 = true -> segs st <> [] -> log_open H st c0 = Ok st' -> segs st' = segs st.
 Proof. exact log_open_readonly_keeps_dir. Qed.
 Print Assumptions C19_readonly_open_changes_no_file.
+
+(* a read-only handle answers like a read-write handle on the same files: both show exactly the abstract log of the
+   directory (hence, by the C03/C04/C09/C10 theorems, the same answers to every query) *)
+Theorem C19_readonly_shows_the_same_log :
+  forall (H : bytes -> Z) st cro_cfg crw_cfg st_ro st_rw,
+  closed_dir st -> segs st <> [] ->
+  log_open H st cro_cfg = Ok st_ro -> log_open H st crw_cfg = Ok st_rw ->
+  LogInv.Inv st_ro /\ LogInv.Inv st_rw /\ LogInv.abs st_ro = LogInv.abs st_rw.
+Proof.
+  intros H st c1 c2 s1 s2 Hcd Hne E1 E2.
+  destruct (log_open_ok H st c1 Hcd Hne s1 E1) as (I1 & A1). destruct (log_open_ok H st c2 Hcd Hne s2 E2) as (I2 & A2).
+  split; [exact I1|]. split; [exact I2|congruence].
+Qed.
+Print Assumptions C19_readonly_shows_the_same_log.
